@@ -12,7 +12,7 @@ RULE = ("seeded random bounded problems x adversarial x0 placement x option spac
 ASSUMPTIONS = ["the recorder sees exactly the arrays dfols passes to objfun (copied before the call)",
                "numpy comparisons are exact IEEE comparisons",
                "sampled, not exhaustive: held on the executions listed under coverage"]
-N = {"quick": 900, "thorough": 24000}
+N = {"quick": 1400, "thorough": 30000}
 CASE_TIMEOUT = {"quick": 120, "thorough": 300}
 
 
@@ -60,8 +60,102 @@ def make_cfg(seed, i):
     return cfg
 
 
+FAMILIES = ["plain", "scaled", "scaled", "soft_inc_npt", "soft", "hard", "hard_inc_npt", "growing", "momentum", "regression",
+            "random_init", "averaging", "reg", "one_sided"]
+
+
+def make_active_cfg(seed, i):
+    """Directed: the minimiser lies outside the box in most coordinates, so the iterates sit on the bounds while one option
+    family at a time (restarts with growing npt, growing, momentum/regression steps, random init, averaging, regulariser,
+    scaling) generates its points right next to them."""
+    rng = engine.rng_for(seed, NUM, i, 1)
+    r = rng.random
+    fam = FAMILIES[i % len(FAMILIES)]
+    n = int(rng.integers(1, 6))
+    if fam in ("growing", "momentum", "regression", "soft_inc_npt", "hard_inc_npt") and n == 1:
+        n = 2
+    box = gen.gen_box(rng, n, one_sided_p=(1.0 if fam == "one_sided" else 0.0), scaling_p=(1.0 if fam == "scaled" else 0.0),
+                      place_p=0.5, tight_p=0.15)
+    lo = gen.arr(box["lower"], n, -np.inf)
+    hi = gen.arr(box["upper"], n, np.inf)
+    gap = np.where(np.isfinite(hi - lo), hi - lo, 1.0)
+    ref_lo = np.where(np.isfinite(lo), lo, hi - gap)
+    ref_hi = np.where(np.isfinite(hi), hi, lo + gap)
+    t = np.empty(n)
+    for j in range(n):
+        u = r()
+        if u < 0.4:
+            t[j] = ref_hi[j] + gap[j] * (0.05 + 2 * r())
+        elif u < 0.8:
+            t[j] = ref_lo[j] - gap[j] * (0.05 + 2 * r())
+        else:
+            t[j] = ref_lo[j] + gap[j] * r()
+    w = (1.0 / gap) * 10.0 ** rng.uniform(-0.5, 0.5, size=n)
+    spec = dict(kind="target", n=n, m=n, pseed=int(rng.integers(0, 2 ** 31)), t=t.tolist(), w=w.tolist(),
+                couple=(rng.normal(size=n) / gap).tolist() if r() < 0.5 else None, trap=bool(r() < 0.7))
+    rhobeg = box["rhobeg"]
+    args = dict(rhobeg=rhobeg, rhoend=rhobeg * float(10.0 ** rng.integers(-6, -1)), maxfun=int(gen.pick(rng, [40, 80, 150])))
+    up = {}
+    if box["scaling"]:
+        args["scaling_within_bounds"] = True
+    if fam in ("soft", "soft_inc_npt", "hard", "hard_inc_npt"):
+        up["restarts.use_restarts"] = True
+        args["rhoend"] = rhobeg * float(10.0 ** rng.integers(-3, 0)) * 0.5   # reach rhoend quickly: many restarts
+        if fam.startswith("hard"):
+            up["restarts.use_soft_restarts"] = False
+            if r() < 0.5:
+                up["restarts.hard.use_old_rk"] = False
+        else:
+            if r() < 0.3:
+                up["restarts.soft.move_xk"] = False
+        if fam.endswith("inc_npt"):
+            cap = (n + 1) * (n + 2) // 2
+            up["restarts.increase_npt"] = True
+            up["restarts.max_npt"] = int(min(n + 1 + rng.integers(1, n + 3), cap))
+            if r() < 0.5:
+                up["restarts.increase_npt_amt"] = 2
+                up["restarts.hard.increase_ndirs_initial_amt"] = 2
+        if r() < 0.3:
+            up["restarts.rhoend_scale"] = float(gen.pick(rng, [0.5, 0.1]))
+        up["restarts.max_unsuccessful_restarts"] = int(gen.pick(rng, [3, 10]))
+    elif fam == "growing":
+        up["growing.ndirs_initial"] = int(rng.integers(1, n))
+        if r() < 0.5:
+            up["growing.num_new_dirns_each_iter"] = 1
+        if r() < 0.4:
+            up["growing.do_geom_steps"] = True
+        if r() < 0.3:
+            up["growing.full_rank.use_full_rank_interp"] = False
+            up["growing.perturb_trust_region_step"] = True
+    elif fam in ("momentum", "regression"):
+        args["npt"] = int(rng.integers(n + 2, 2 * n + 2))
+        up["regression.num_extra_steps"] = int(rng.integers(1, 3))
+        if fam == "momentum":
+            up["regression.momentum_extra_steps"] = True
+    elif fam == "random_init":
+        up["init.random_initial_directions"] = True
+        if r() < 0.4:
+            up["init.random_directions_make_orthogonal"] = False
+        if r() < 0.4:
+            args["npt"] = int(rng.integers(n + 1, 2 * n + 2))
+    cfg = dict(prob=spec, x0=box["x0"], lower=box["lower"], upper=box["upper"], args=args, user_params=up)
+    if fam == "averaging":
+        cfg["nsamples"] = dict(kind="const", v=int(rng.integers(2, 4)))
+        spec["noise"] = 1e-3
+        spec["nseed"] = int(rng.integers(0, 2 ** 31))
+        spec["trap"] = False
+    elif fam == "reg":
+        cfg["reg"] = dict(type=gen.pick(rng, ["l1", "l2"]), lam=float(10.0 ** rng.uniform(-2, 0)))
+        args["maxfun"] = 40
+    cfg["_family"] = fam
+    return cfg
+
+
 def cases(tier, seed):
-    return [dict(i=i, seed=seed) for i in range(N[tier])]
+    nw = N[tier] // 2
+    out = [dict(i=i, seed=seed, type="wide") for i in range(nw)]
+    out += [dict(i=nw + j, seed=seed, type="active") for j in range(N[tier] - nw)]
+    return out
 
 
 def setup():
@@ -70,7 +164,8 @@ def setup():
 
 
 def run_case(case):
-    cfg = case.get("cfg") or make_cfg(case["seed"], case["i"])
+    cfg = case.get("cfg") or (make_cfg(case["seed"], case["i"]) if case.get("type", "wide") == "wide"
+                              else make_active_cfg(case["seed"], case["i"]))
     case["cfg"] = cfg
     run = gen.run_cfg(cfg, timeout=CASE_TIMEOUT["quick"])
     b = run.built
@@ -83,7 +178,9 @@ def run_case(case):
     if run.timeout:
         res["inconclusive"].append("watchdog")
     nan_hist = sum(1 for c in run.ctx.calls if c["r"] is not None and np.isnan(c["r"]).any())
-    if cfg["prob"]["kind"] == "dom":
+    if cfg.get("_family"):
+        st["family|" + cfg["_family"]] = st.get("family|" + cfg["_family"], 0) + 1
+    if cfg["prob"]["kind"] == "dom" or cfg["prob"].get("trap"):
         st["dom_runs"] = 1
         st["dom_nan_evaluations"] = nan_hist
         if nan_hist and not viol:
